@@ -980,6 +980,18 @@ pub fn oracle_c11(op: &str, outs: &[String]) -> String {
                                         if got.as_ref().map(|c| c.freq) != Some(f) {
                                             return format!("FAIL:cflist-frequency-{}-not-applied", f);
                                         }
+                                        // the channel is the one the JoinAccept defines: RX1 on its own
+                                        // frequency and the CFList data-rate range DR0..DR5, whatever an
+                                        // earlier session had negotiated for that slot (DlChannelReq
+                                        // pairing, NewChannelReq range)
+                                        if let Some(c) = got.as_ref() {
+                                            if c.dl.unwrap_or(c.freq) != f {
+                                                return format!("FAIL:cflist-channel-{}-keeps-the-rx1-frequency-{}-of-the-previous-session", n0 + k, c.dl.unwrap_or(c.freq));
+                                            }
+                                            if c.drr != 0x50 {
+                                                return format!("FAIL:cflist-channel-{}-keeps-the-data-rate-range-{:#x}-of-the-previous-session", n0 + k, c.drr);
+                                            }
+                                        }
                                     } else if got != prev {
                                         return format!("FAIL:cflist-out-of-band-frequency-{}-applied", f);
                                     }
